@@ -271,3 +271,16 @@ Definition sanity_checks (s : state) : list bool :=
     forallb (sanity_order s) (ords s) ].
 Definition sanity_ok (s : state) : bool := forallb (fun b => b) (sanity_checks s).
 Definition sanity_zero_ok (s : state) : bool := negb (existsb (N.eqb 0) (order_alts s)).
+
+(* ---- recompute_cardinality_param (maintenance call; Proofs: the identity on every reachable state) ----
+     num_voters = 0
+     for order in self.orders: num_voters += self.multiplicity[order]
+     self.num_voters = num_voters ; self.num_unique_orders = len(set(self.orders)) *)
+Fixpoint dedup_o (l : list order) : list order :=
+  match l with
+  | [] => []
+  | x :: r => if in_orders r x then dedup_o r else x :: dedup_o r
+  end.
+Definition recompute (s : state) : state :=
+  mk (alts s) (n_alt s) (sum_N (map (mget (mult s)) (ords s))) (ords s) (mult s)
+     (N.of_nat (length (dedup_o (ords s)))) (dtype s).
